@@ -442,6 +442,12 @@ def part(R, ctx):
                 ws = [Fraction(rng.choice([-3, -1, 0, 1, 1, 2, 3, 5] if signed else [0, 1, 1, 2, 3, 5]), rng.choice([1, 2, 4])) for _ in range(m)]
             if sum(ws) == 0 and rng.random() < 0.8:
                 ws[0] += 1
+            if wtype not in ('ints', 'ndarray_int') and rng.random() < 0.3:
+                # the scale of a weight vector is immaterial to a weighted mean and linear in a weighted sum: un-normalised
+                # Boltzmann factors sum to 1e-9 or 1e+9 as easily as to 1.  Powers of two keep every product exact in doubles.
+                scale = Fraction(2) ** rng.choice([-60, -40, -30, -30, 30, 50])
+                ws = [w * scale for w in ws]
+                dist['batch_scaled_weights'] = dist.get('batch_scaled_weights', 0) + 1
             dist['batch_signed_weights'] += any(w < 0 for w in ws)
             dist['batch_negative_weight_sum'] += sum(ws) < 0
             dist['batch_zero_weight'] += any(w == 0 for w in ws)
